@@ -80,8 +80,9 @@ def generate(rng, seed, part):
             else:
                 axes.append(build.gen_axis(rng, max_bins=5 if ndim == 1 else 3,
                                            families=[f for f in fams if f != "adaptive"]))
-        wkind = rng.choice(["none", "none", "int", "dyadic", "float"])
-        cfg.update({"ndim": ndim, "axes": axes, "weights": wkind, "dtype": build.pick_dtype(rng, wkind),
+        wkind = rng.choice(["none", "none", "int", "dyadic", "float", "tiny"])
+        cfg.update({"ndim": ndim, "axes": axes, "weights": wkind,
+                    "dtype": build.pick_dtype(rng, "float" if wkind == "tiny" else wkind),
                     "axis_names": rng.choice([None, None, ["x", "y", "z"][:ndim]])})
         if adaptive:
             cfg["dtype"] = rng.choice([None, "float64", "int64"]) if wkind in ("none", "int") else None
@@ -91,7 +92,8 @@ def generate(rng, seed, part):
         entries = []
         for _ in range(n + 8):
             vals = [build.draw_value(rng, p) for p in pools]
-            entries.append([vals[0] if ndim == 1 else vals, build.draw_weight(rng, wkind)])
+            w = rng.choice([1e-12, 3e-12, 2.5e-10, 7e-9]) if wkind == "tiny" else build.draw_weight(rng, wkind)
+            entries.append([vals[0] if ndim == 1 else vals, w])
         if klass == "collection":
             cfg["members"] = rng.randint(1, 3)
     else:
@@ -103,6 +105,8 @@ def generate(rng, seed, part):
             pt = [rng.choice([0.0, 1.0, -1.0, 0.5, -2.5, 3.0, 1e-3, rng.uniform(-4, 4)]) for _ in range(src_dim)]
             entries.append([pt, build.draw_weight(rng, cfg["weights"])])
     cfg["initial"] = n
+    # custom squared errors (given quantifier): far from, or only slightly different from, the contents
+    cfg["errors"] = rng.choice([None, None, None, "custom", "near", "plus_few"])
     ops = []
     nxt = n
     can_fill = True
@@ -114,7 +118,7 @@ def generate(rng, seed, part):
             nxt += k
         elif r < 0.27:
             ops.append({"op": "transform", "how": rng.choice(["merge", "imul", "idiv", "set_dtype", "normalize",
-                                                              "set_meta", "iadd_self", "set_adaptive_off"]),
+                                                              "set_meta", "iadd_self", "set_adaptive_off", "imul_near_one"]),
                         "arg": rng.randrange(64)})
         elif r < 0.40:
             ops.append({"op": "save", "path": rng.choice(PATHS), "via": rng.choice(["save_json", "to_json"]),
@@ -192,6 +196,17 @@ def make_node(cfg, entries):
             h = physt.cylindrical(data, rho_bins=EDGES_R, phi_bins=4, z_bins=EDGES_Z, **kw)
         else:
             h = physt.cylindrical(data, rho_bins=EDGES_R, phi_bins=4, z_bins=EDGES_Z, **kw).projection("phi", "z")
+    if cfg.get("errors"):
+        f = np.asarray(h.frequencies)
+        if cfg["errors"] == "custom":
+            h.errors2 = (f * 2 + 1).astype(h.dtype)
+        elif cfg["errors"] == "near" and np.dtype(h.dtype).kind == "f":
+            h.errors2 = (f * (1 + 2e-6)).astype(h.dtype)
+        elif cfg["errors"] == "plus_few":
+            big = h.copy()
+            big *= 100000
+            big.errors2 = (np.asarray(big.frequencies) + (np.arange(f.size).reshape(f.shape) % 7)).astype(big.dtype)
+            h = big
     if cfg.get("name"):
         h.name = cfg["name"]
     if cfg.get("title"):
@@ -223,6 +238,8 @@ def transform(cfg, h, op):
             t.merge_bins(2, axis=arg % t.ndim, inplace=True)
         elif how == "imul":
             t *= [2, 0.5, 3][arg % 3]
+        elif how == "imul_near_one":
+            t *= [1.000002, 0.999999, 1.0000001][arg % 3]
         elif how == "idiv":
             t /= [2, 4][arg % 2]
         elif how == "set_dtype":
